@@ -34,3 +34,149 @@ def split_rules(failed):
     hard = [f for f in failed if not f.startswith("drift ")]
     drift = [f for f in failed if f.startswith("drift ")]
     return hard, drift
+
+
+# --------------------------------------------------------------------------- C15 tables
+# Pure transport: the generated source files of dicom-dictionary-std are turned into
+# ndjson rows (no lookup logic here; consistency of the three textual sources of a
+# row -- published dicom.dic line in the doc comment, constant declaration, ENTRIES
+# line -- is judged by TLC).
+import re
+
+_doc_re = re.compile(r"^/// (\S+) \(([0-9A-Fa-f]{4})(?:-([0-9A-Fa-f]{4}))?,([0-9A-Fa-f]{4})(?:-([0-9A-Fa-f]{4}))?\) (\S+) (\S+) ?(.*)$")
+_decl_re = re.compile(r"^pub const ([A-Z0-9_]+): (Tag|TagRange) = (?:(Group100|Element100)\()?Tag\(0x([0-9A-Fa-f]{4}), 0x([0-9A-Fa-f]{4})\)\)?;")
+_entry_re = re.compile(r'^\s*E \{ tag: (?:(Single)\()?([A-Z0-9_]+)\)?, alias: "([^"]*)", vr: (?:Exact\(([A-Z]{2})\)|(Xs|Ox|Px|Lt)) \}')
+
+
+def extract_tag_table(tags_rs="/repo/dictionary-std/src/tags.rs"):
+    decls, rows = {}, []
+    doc = None
+    in_entries = False
+    with open(tags_rs) as f:
+        for line in f:
+            line = line.rstrip("\n")
+            if line.startswith("pub(crate) const ENTRIES"):
+                in_entries = True
+                continue
+            if not in_entries:
+                m = _doc_re.match(line)
+                if m:
+                    doc = m
+                    continue
+                if line.startswith("/// "):
+                    raise vlib.ToolError("tags.rs: unparsed doc line: " + line)
+                m = _decl_re.match(line)
+                if m:
+                    if doc is None:
+                        raise vlib.ToolError("tags.rs: constant without doc line: " + line)
+                    glo = int(doc.group(2), 16)
+                    elo = int(doc.group(4), 16)
+                    decls[m.group(1)] = {
+                        "cname": m.group(1), "ctype": m.group(2), "ctor": m.group(3) or "",
+                        "g": int(m.group(4), 16), "e": int(m.group(5), 16),
+                        "dalias": doc.group(1), "glo": glo, "ghi": int(doc.group(3), 16) if doc.group(3) else glo,
+                        "elo": elo, "ehi": int(doc.group(5), 16) if doc.group(5) else elo,
+                        "dvr": doc.group(6), "dvm": doc.group(7)}
+                    doc = None
+                elif line.startswith("pub const"):
+                    raise vlib.ToolError("tags.rs: unparsed constant: " + line)
+            else:
+                if line.strip().startswith("E {"):
+                    m = _entry_re.match(line)
+                    if not m:
+                        raise vlib.ToolError("tags.rs: unparsed entry: " + line)
+                    d = decls.get(m.group(2))
+                    if d is None:
+                        raise vlib.ToolError("tags.rs: entry refers to unknown constant " + m.group(2))
+                    row = dict(d)
+                    row.update({"wrap": m.group(1) or "", "alias": m.group(3),
+                                "vr": m.group(4) if m.group(4) else m.group(5).lower()})
+                    rows.append(row)
+    # singles first in ascending tag order (TLC checks the order and uses binary search)
+    singles = sorted([r for r in rows if r["wrap"] == "Single"], key=lambda r: (r["g"], r["e"]))
+    ranges = [r for r in rows if r["wrap"] != "Single"]
+    out = singles + ranges
+    for k, r in enumerate(out):
+        r["id"] = k + 1
+    return out, len(decls)
+
+
+_uid_entry_re = re.compile(r'^\s*E::new\("([^"]*)", "((?:[^"\\]|\\.)*)", "([^"]*)", (\w+), (true|false)\),')
+_uid_decl_re = re.compile(r'^pub const ([A-Z0-9_]+): &str = "([^"]*)";')
+
+
+def extract_sop_table(uids_rs="/repo/dictionary-std/src/uids.rs"):
+    rows, consts = [], {}
+    block = None
+    doc = None
+    with open(uids_rs) as f:
+        for line in f:
+            line = line.rstrip("\n")
+            if line.startswith("/// "):
+                doc = line[4:]
+                continue
+            m = _uid_decl_re.match(line)
+            if m:
+                consts[m.group(2)] = {"cname": m.group(1), "doc": doc or ""}
+                continue
+            m = re.match(r"^pub\(crate\) const ([A-Z_]+): &\[E\] = &\[", line)
+            if m:
+                block = m.group(1)
+                continue
+            if line.startswith("];"):
+                block = None
+                continue
+            if block and line.strip().startswith("E::new"):
+                m = _uid_entry_re.match(line)
+                if not m:
+                    raise vlib.ToolError("uids.rs: unparsed entry: " + line)
+                c = consts.get(m.group(1), {"cname": "", "doc": ""})
+                rows.append({"block": block, "uid": m.group(1), "name": m.group(2).replace('\\"', '"'), "alias": m.group(3),
+                             "type": m.group(4), "retired": m.group(5) == "true", "cname": c["cname"], "doc": c["doc"]})
+    return rows
+
+
+# --------------------------------------------------------------------------- C10 code tables
+# DATA generated at check time by python3's own codecs (independent of dicom-rs):
+# for every single-byte character set the pairs (code point, byte) that round-trip in
+# python, restricted to graphic bytes 0x20-0x7E and 0xA0-0xFF (control codes are not
+# part of any repertoire).  ISO_IR 13 (JIS X 0201): the single-byte part of shift_jis
+# without 0x5C and 0x7E, where JIS X 0201 (YEN SIGN, OVERLINE) and the vendor code pages
+# (REVERSE SOLIDUS, TILDE) legitimately differ.
+PY_CODECS = {
+    "ISO_IR 6": "ascii",
+    "ISO_IR 13": "shift_jis",
+    "ISO_IR 100": "latin_1",
+    "ISO_IR 101": "iso8859_2",
+    "ISO_IR 109": "iso8859_3",
+    "ISO_IR 110": "iso8859_4",
+    "ISO_IR 126": "iso8859_7",
+    "ISO_IR 127": "iso8859_6",
+    "ISO_IR 138": "iso8859_8",
+    "ISO_IR 144": "iso8859_5",
+    "ISO_IR 166": "tis_620",
+}
+
+
+def charset_tables():
+    rows = []
+    for cs, codec in PY_CODECS.items():
+        cps, bts = [], []
+        for b in list(range(0x20, 0x7F)) + list(range(0xA0, 0x100)):
+            if cs == "ISO_IR 13" and b in (0x5C, 0x7E):
+                continue
+            try:
+                s = bytes([b]).decode(codec)
+            except (UnicodeDecodeError, ValueError):
+                continue
+            if len(s) != 1:
+                continue
+            try:
+                if s.encode(codec) != bytes([b]):
+                    continue
+            except (UnicodeEncodeError, ValueError):
+                continue
+            cps.append(ord(s))
+            bts.append(b)
+        rows.append({"cs": cs, "codec": codec, "cps": cps, "bytes": bts})
+    return rows
